@@ -296,3 +296,185 @@ Definition check_pcase9 (c : pcase9) : list nat :=
       chk 8 (Bool.eqb hyp (path_hypb st)) ++
       zip9 O (map observe9 (mf_path_iter (if first then choose_first else choose_last) harness_dum st highs)) impl
   end.
+
+(* ====================================================================================================
+   Part 2: SequenceBasedRoutingProblem.make_feasible (routing_problem/formulations/sequence_based_rp.py)
+   on top of Seq.v.  `strict` is the object's flag (its add_arc uses the strict timing filter for
+   customer origins).  reset_build_flags / the cache flags are irrelevant to the pure model: every
+   query of Seq.v recomputes from the instance. *)
+From VQ Require Import Seq.
+
+(* a < b on extended numbers *)
+Definition ext_ltb (a b : ext) : bool := negb (ext_leb b a).
+
+Section SeqHeur.
+  Variable strict : bool.
+
+  (* list.sort(key = window end): stable; x goes before the first element with a larger key *)
+  Fixpoint insert_by (g : graph) (x : nat) (l : list nat) : list nat :=
+    match l with
+    | [] => [x]
+    | y :: l' => if ext_ltb (nhi (gnode g x)) (nhi (gnode g y)) then x :: l else y :: insert_by g x l'
+    end.
+  Definition sort_by_end (g : graph) (l : list nat) : list nat :=
+    fold_left (fun acc x => insert_by g x acc) l [].
+
+  (* `if not self.check_arc((i, j)): added = self.add_arc(names[i], names[j], 0, cost); if not added: raise` *)
+  Definition ensure_arc (g : graph) (i j : nat) (cost : Z) : result graph :=
+    if dict_mem (i, j) (arcs g) then Ok g
+    else
+      match nth_error (names g) i, nth_error (names g) j with
+      | Some ni, Some nj =>
+          match add_arc_gen strict g ni nj 0 cost with
+          | Err e => Err e
+          | Ok (g', true) => Ok g'
+          | Ok (_, false) => Err ValueError
+          end
+      | _, _ => Err IndexError
+      end.
+
+  (* the loop `for si in range(1, L-1)` of one vehicle; ss = the remaining positions.
+     Returns the graph, the node the vehicle stands on, the unvisited list, the used tuples. *)
+  Fixpoint veh_loop (g : graph) (v : nat) (ss : list nat) (cur : nat) (unv : list nat) (used : list tuple)
+    : result (graph * nat * list nat * list tuple) :=
+    match ss with
+    | [] => Ok (g, cur, unv, used)
+    | si :: ss' =>
+        match find (fun ni => dict_mem (cur, ni) (arcs g)) unv with
+        | Some ni =>
+            match remove_first ni unv with
+            | None => Err ValueError
+            | Some unv' => veh_loop g v ss' ni unv' (used ++ [(v, si, ni)])
+            end
+        | None =>
+            match ensure_arc g cur O 0 with
+            | Err e => Err e
+            | Ok g' => Ok (g', cur, unv, used ++ map (fun sii => (v, sii, O)) (si :: ss'))
+            end
+        end
+    end.
+
+  (* one iteration of `for vi in range(self.max_vehicles)` *)
+  Definition veh_step (L : nat) (g : graph) (v : nat) (unv : list nat) (used : list tuple)
+    : result (graph * list nat * list tuple) :=
+    match veh_loop g v (seq 1 (L - 2)) O unv used with
+    | Err e => Err e
+    | Ok (g1, cur, unv1, used1) =>
+        match (if Nat.eqb cur 0 then Ok g1 else ensure_arc g1 cur O 0) with
+        | Err e => Err e
+        | Ok g2 => Ok (g2, unv1, used1)
+        end
+    end.
+
+  Fixpoint veh_all (L : nat) (g : graph) (vs : list nat) (unv : list nat) (used : list tuple)
+    : result (graph * list nat * list tuple) :=
+    match vs with
+    | [] => Ok (g, unv, used)
+    | v :: vs' =>
+        match veh_step L g v unv used with
+        | Err e => Err e
+        | Ok (g1, unv1, used1) => veh_all L g1 vs' unv1 used1
+        end
+    end.
+
+  (* `for ni in unvisited_indices`: one dummy vehicle per customer left *)
+  Fixpoint dummy_vehicles (L : nat) (high : Z) (g : graph) (V : nat) (vc : list Z) (us : list nat)
+           (used : list tuple) : result (graph * nat * list Z * list tuple) :=
+    match us with
+    | [] => Ok (g, V, vc, used)
+    | ni :: us' =>
+        match ensure_arc g O ni high with
+        | Err e => Err e
+        | Ok g1 =>
+            match ensure_arc g1 ni O high with
+            | Err e => Err e
+            | Ok g2 =>
+                dummy_vehicles L high g2 (S V) (vc ++ [high]) us'
+                  (used ++ (V, 1%nat, ni) :: map (fun si => (V, si, O)) (seq 2 (L - 3)))
+            end
+        end
+    end.
+
+  (* feasible_solution[get_var_index(v, s, n)] = 1; var_mapping_inverse[v, s, n] raises IndexError outside the
+     array, a fixed tuple (-1 -> None) raises ValueError *)
+  Fixpoint mark_tuples (I : inst) (used : list tuple) (x : list Z) : result (list Z) :=
+    match used with
+    | [] => Ok x
+    | (v, s, n) :: rest =>
+        if negb ((v <? iV I)%nat && (s <? iL I)%nat && (n <? iN I)%nat) then Err IndexError
+        else match var_index I (v, s, n) with
+             | None => Err ValueError
+             | Some k => mark_tuples I rest (set_nth k 1 x)
+             end
+    end.
+
+  Definition mf_seq (I : inst) (high : Z) : result (inst * list Z) :=
+    let N := iN I in
+    let L := iL I in
+    match remove_first 0 (seq 0 N) with
+    | None => Err ValueError                                   (* unvisited_indices.remove(0) *)
+    | Some cust =>
+        let unv := sort_by_end (ig I) cust in
+        match veh_all L (ig I) (seq 0 (iV I)) unv [] with
+        | Err e => Err e
+        | Ok (g1, unv1, used1) =>
+            match dummy_vehicles L high g1 (iV I) (ivc I) unv1 used1 with
+            | Err e => Err e
+            | Ok (g2, V2, vc2, used2) =>
+                let I2 := mkInst g2 V2 L vc2 in
+                match mark_tuples I2 used2 (repeat 0 (num_variables I2)) with
+                | Err e => Err e
+                | Ok x => Ok (I2, x)
+                end
+            end
+        end
+    end.
+
+  Fixpoint mf_seq_iter (I : inst) (highs : list Z) : list (result (inst * list Z)) :=
+    match highs with
+    | [] => []
+    | h :: hs =>
+        match mf_seq I h with
+        | Err e => [Err e]
+        | Ok (I', x) => Ok (I', x) :: mf_seq_iter I' hs
+        end
+    end.
+End SeqHeur.
+
+(* ---------- correspondence (sequence) ---------- *)
+(* after each invocation: outcome class; on success the vector, arcs, max_vehicles, vehicle_cost *)
+Definition sobs9 := result (list Z * list ((nat * nat) * (Z * Z)) * nat * list Z).
+Definition observe_s9 (r : result (inst * list Z)) : sobs9 :=
+  match r with
+  | Err e => Err e
+  | Ok (J, x) => Ok (x, arcs_obs (ig J), iV J, ivc J)
+  end.
+Definition sobs9_eqb (a b : sobs9) : bool :=
+  result_eqb (fun u v =>
+    match u, v with
+    | (x1, a1, v1, c1), (x2, a2, v2, c2) =>
+        zlist_eqb x1 x2 && arcs_obs_eqb a1 a2 && Nat.eqb v1 v2 && zlist_eqb c1 c2
+    end) a b.
+Fixpoint zip_s9 (k : nat) (ms is_ : list sobs9) : list nat :=
+  match ms, is_ with
+  | [], [] => []
+  | m :: ms', i :: is' => if sobs9_eqb m i then zip_s9 (S k) ms' is' else [S k]
+  | _, _ => [9%nat]
+  end.
+
+(* strict flag, history on the formulation object (add_node ..., set_depot, add_arc ...), V, L, the
+   high costs, the observations.  Tags as for the path cases; 99 = the constructor failed in the model *)
+Definition scase9 := (bool * list gop * nat * nat * list Z * list sobs9)%type.
+Definition sinst_of (strict : bool) (ops : list gop) (V L : nat) : result inst :=
+  match seq_init strict empty_graph with
+  | Err e => Err e
+  | Ok g0 => Ok (mkInst (run (Seq strict) ops g0) V L (repeat 0 V))
+  end.
+Definition check_scase9 (c : scase9) : list nat :=
+  match c with
+  | (strict, ops, V, L, highs, impl) =>
+      match sinst_of strict ops V L with
+      | Err _ => [99%nat]
+      | Ok J => zip_s9 O (map observe_s9 (mf_seq_iter strict J highs)) impl
+      end
+  end.
